@@ -11,6 +11,13 @@ NCPU = os.cpu_count() or 4
 GOENV = dict(os.environ, GOFLAGS="-mod=mod", GOPROXY="off", GOSUMDB="off", GOTOOLCHAIN="local", CGO_ENABLED="0")
 
 
+def tlc_brief(out):
+    """The informative part of a failed TLC run: error lines first, then the tail, never the emitted cases or states."""
+    lines = [l[:300] for l in out.splitlines() if not l.startswith('<<"CASE"') and not l.startswith("/\\") and not l.startswith("  ")]
+    errs = [l for l in lines if re.search(r"Error|violated|Attempted|exception|not a legal|Unknown|undefined|line \d+, col", l)]
+    return "\n".join(errs[:25] + ["..."] + lines[-12:])
+
+
 class Broken(Exception):
     """The machinery itself failed (exit 2): never a verdict about the code."""
 
@@ -147,7 +154,7 @@ def judge(work, module, trace, env_file, open_findings=(), shards=None, tag="j",
         for out, st in ex.map(one, enumerate(parts)):
             m = JUDGED_RE.search(out)
             if not m or "Error:" in out or st["rc"] != 0:
-                raise Broken("trace judging failed (%s):\n%s" % (module, out[-3000:]))
+                raise Broken("trace judging failed (%s):\n%s" % (module, tlc_brief(out)))
             judged += int(m.group(1))
             gen += st["generated"]
             dist += st["distinct"]
